@@ -1123,6 +1123,10 @@ impl Check for CtrlCheck {
         let item = all.into_iter().nth(idx).ok_or("no such item")?;
         let mut acc = Value::Null;
         for cfg in &item.cfgs {
+            // (a constructor that takes the process down is localised to its configuration)
+            if let Some(j) = journal {
+                j.write(&cfg.to_json(), "");
+            }
             if self.id == "C03" {
                 // a constructor that panics on a configuration of the lattice (all of them are
                 // valid: positive rates and ratios, chunk >= 1) is a finding, not a harness error
